@@ -245,6 +245,17 @@ fn cmd_replay(a: &Args) -> i32 {
         if machine {
             cmd.arg("--machine");
         }
+        // become that binary (exec) rather than spawn it: whoever supervises this process and
+        // kills it after a timeout must hit the process that is actually running the case, or a
+        // hanging case is left behind spinning for ever
+        #[cfg(unix)]
+        {
+            use std::os::unix::process::CommandExt;
+            let e = cmd.exec();
+            println!("replay error: {}", e);
+            return 2;
+        }
+        #[cfg(not(unix))]
         return match cmd.status() {
             Ok(st) => st.code().unwrap_or(3),
             Err(e) => {
